@@ -472,47 +472,75 @@ def run_feat(case, r):
     s = S(r)
     try:
         da, data = mk_array(s, "d", (n,), [spec])
-        fa, fdata = mk_array(s, "f", (n, 2), [spec, ("set", False)])
-        fdata = fdata * 10
-        fa[:] = fdata
+        # one feature array per link type, with different content (x10, x100, x1000)
+        LTS = ("Tagged", "Untagged", "Indexed")
+        fas, fdatas = [], []
+        for k, lt in enumerate(LTS):
+            fa, fd = mk_array(s, "f" + lt, (n, 2), [spec, ("set", False)])
+            fd = fd * (10 ** (k + 1))
+            fa[:] = fd
+            fas.append(fa)
+            fdatas.append(fd)
         c = coords(spec, n)
         tag = s.b.create_tag("tag", "t", [0.0])
         tag.references.append(da)
-        feats = {}
-        for lt in ("Tagged", "Untagged", "Indexed"):
+        for lt, fa in zip(LTS, fas):
             tag.create_feature(fa, getattr(nix.LinkType, lt))
         pa = s.b.create_data_array("pos", "t", data=np.array([float(c[1]), float(c[0]), float(c[3])]))
         xa = s.b.create_data_array("ext", "t", data=np.array([float(c[2] - c[1]), 0.0, float(c[4] - c[3])]))
         mt = s.b.create_multi_tag("mt", "t", pa)
         mt.extents = xa
         mt.references.append(da)
-        for lt in ("Tagged", "Untagged", "Indexed"):
+        for lt, fa in zip(LTS, fas):
             mt.create_feature(fa, getattr(nix.LinkType, lt))
+
+        def forms(owner, fi):
+            """every way of addressing feature fi: position, feature id, name and id of its data"""
+            ft = owner.features[fi]
+            return [("index", fi), ("feature-id", ft.id), ("data-name", fas[fi].name), ("data-id", fas[fi].id)]
         regs = [(c[1], c[2] - c[1]), (c[0], Fr(0)), (c[3], c[4] - c[3]), (c[1] + (c[2] - c[1]) / 4, Fr(0)), (c[2], None)]
         for p, e in regs:
             tag.position = [float(p)]
             tag.extent = None if e is None else [float(e)]
             for rn, rule in RULES:
                 sel = [select(c, p, e, rn), [0, 1]]
-                st, got = observe(lambda: tag.feature_data(0, rule))
-                judge(r, "C08|tag.feature|%s|tagged|%s" % (kind, rn), "tag feature (tagged) region [%s,+%s] %s" % (float(p), e, rn),
-                      fdata, sel, contained(c, p, e), st, got)
+                for fname, key in forms(tag, 0):
+                    st, got = observe(lambda: tag.feature_data(key, rule))
+                    judge(r, "C08|tag.feature|%s|tagged|%s|by-%s" % (kind, rn, fname), "tag feature (tagged, addressed by %s) region [%s,+%s] %s" % (fname, float(p), e, rn),
+                          fdatas[0], sel, contained(c, p, e), st, got)
                 for fi, nm in ((1, "untagged"), (2, "indexed")):
-                    st, got = observe(lambda: tag.feature_data(fi, rule))
-                    judge(r, "C08|tag.feature|%s|%s|%s" % (kind, nm, rn), "tag feature (%s) must be the whole array" % nm,
-                          fdata, [list(range(n)), [0, 1]], True, st, got)
+                    for fname, key in forms(tag, fi):
+                        st, got = observe(lambda: tag.feature_data(key, rule))
+                        judge(r, "C08|tag.feature|%s|%s|%s|by-%s" % (kind, nm, rn, fname), "tag feature (%s, by %s) must be the whole array" % (nm, fname),
+                              fdatas[fi], [list(range(n)), [0, 1]], True, st, got)
+            # the deprecated spellings are the same calls
+            for nm_, new_, old_ in (("retrieve_data", lambda: tag.tagged_data(0), lambda: tag.retrieve_data(0)),
+                                    ("retrieve_feature_data", lambda: tag.feature_data(0), lambda: tag.retrieve_feature_data(0))):
+                a_, b_ = observe(new_), observe(old_)
+                r.evals += 1
+                if a_[0] != b_[0] or (a_[1] is not None and not np.array_equal(a_[1], b_[1])):
+                    r.viol("C08|tag.%s|%s|differs-from-current-name" % (nm_, kind), "Tag.%s gives %r, the current method %r" % (nm_, b_, a_), {})
         mregs = [(c[1], c[2] - c[1]), (c[0], Fr(0)), (c[3], c[4] - c[3])]
         for i, (p, e) in enumerate(mregs):
             for rn, rule in RULES:
-                st, got = observe(lambda: mt.feature_data(i, 0, rule))
-                judge(r, "C08|mtag.feature|%s|tagged|%s|row%d" % (kind, rn, i), "multi-tag feature (tagged) row %d %s" % (i, rn),
-                      fdata, [select(c, p, e, rn), [0, 1]], contained(c, p, e), st, got)
-                st, got = observe(lambda: mt.feature_data(i, 1, rule))
-                judge(r, "C08|mtag.feature|%s|untagged|%s" % (kind, rn), "multi-tag feature (untagged) must be the whole array",
-                      fdata, [list(range(n)), [0, 1]], True, st, got)
-                st, got = observe(lambda: mt.feature_data(i, 2, rule))
-                judge(r, "C08|mtag.feature|%s|indexed|%s|row%d" % (kind, rn, i), "multi-tag feature (indexed) row %d must be entry %d" % (i, i),
-                      fdata, [[i], [0, 1]], True, st, got)
+                for fname, key in forms(mt, 0):
+                    st, got = observe(lambda: mt.feature_data(i, key, rule))
+                    judge(r, "C08|mtag.feature|%s|tagged|%s|row%d|by-%s" % (kind, rn, i, fname), "multi-tag feature (tagged, by %s) row %d %s" % (fname, i, rn),
+                          fdatas[0], [select(c, p, e, rn), [0, 1]], contained(c, p, e), st, got)
+                for fname, key in forms(mt, 1):
+                    st, got = observe(lambda: mt.feature_data(i, key, rule))
+                    judge(r, "C08|mtag.feature|%s|untagged|%s|by-%s" % (kind, rn, fname), "multi-tag feature (untagged, by %s) must be the whole array" % fname,
+                          fdatas[1], [list(range(n)), [0, 1]], True, st, got)
+                for fname, key in forms(mt, 2):
+                    st, got = observe(lambda: mt.feature_data(i, key, rule))
+                    judge(r, "C08|mtag.feature|%s|indexed|%s|row%d|by-%s" % (kind, rn, i, fname), "multi-tag feature (indexed, by %s) row %d must be entry %d" % (fname, i, i),
+                          fdatas[2], [[i], [0, 1]], True, st, got)
+            for nm_, new_, old_ in (("retrieve_data", lambda: mt.tagged_data(i, 0), lambda: mt.retrieve_data(i, 0)),
+                                    ("retrieve_feature_data", lambda: mt.feature_data(i, 0), lambda: mt.retrieve_feature_data(i, 0))):
+                a_, b_ = observe(new_), observe(old_)
+                r.evals += 1
+                if a_[0] != b_[0] or (a_[1] is not None and not np.array_equal(a_[1], b_[1])):
+                    r.viol("C08|mtag.%s|%s|differs-from-current-name" % (nm_, kind), "MultiTag.%s gives %r, the current method %r" % (nm_, b_, a_), {})
     finally:
         s.close()
 
